@@ -306,6 +306,7 @@ class Ctx:
         self.writes = []  # (kind, obj, key) heap writes performed by interpreted code
         self.fresh_objs = set()  # ids of objects allocated by interpreted code
         self.keep = []  # keeps ids alive
+        self.facts = []  # human-readable decisions taken on this path (stable signature)
 
     # -- assumptions ---------------------------------------------------------------
     def assume(self, cond):
@@ -350,7 +351,9 @@ class Ctx:
             else:
                 raise PathAbort()
         self.taken.append(choice)
-        self.pc.append(cond if choice else z3.Not(cond))
+        lit = cond if choice else z3.Not(cond)
+        self.pc.append(lit)
+        self.facts.append(str(z3.simplify(lit)).replace("\n", " "))
         return choice
 
     def choose(self, n, label=""):
@@ -367,7 +370,17 @@ class Ctx:
             for k in range(1, n):
                 self.pending.append(self.taken + [k])
         self.taken.append(choice)
+        if label:
+            self.facts.append(f"{label}#{choice}")
         return choice
+
+    def signature(self):
+        seen = []
+        for f in self.facts:
+            f = " ".join(f.split())
+            if f not in seen:
+                seen.append(f)
+        return " & ".join(sorted(seen)) or "-"
 
     # -- validity -----------------------------------------------------------------------
     def valid(self, cond):
